@@ -141,7 +141,13 @@ def _short(cfg, v):
     return v
 
 
-CATALOGUE = {"reject": _reject, "typeerr": _typeerr, "nonneg": _nonneg, "upper": _upper, "short": _short}
+def _small(cfg, v):
+    if isinstance(v, (list, dict)) and len(v) > 2:
+        raise ValueError("too many")
+    return v
+
+
+CATALOGUE = {"reject": _reject, "typeerr": _typeerr, "nonneg": _nonneg, "upper": _upper, "short": _short, "small": _small}
 
 
 # ------------------------------------------------------------------------------------------------ declarations
@@ -178,14 +184,14 @@ def gen_field(rng, depth=2, scalar_only=False, hashable=False):
     kinds = ["string", "string", "int", "int", "float", "bool", "bytes", "port", "ipv4addr", "ipv4net", "hostname", "url", "filename",
              "loglevel", "appmode", "challenge", "secure", "any"]
     if hashable:
-        kinds = ["string", "string", "int", "bool", "ipv4addr", "hostname", "loglevel"]
+        kinds = ["string", "string", "int", "bool", "ipv4addr", "hostname", "loglevel", "bytes"]
     if depth > 0 and not scalar_only and not hashable:
         kinds += ["list", "list", "dict", "list_untyped", "dict_untyped"]
     k = rng.choice(kinds)
     f = {"k": k, "required": rng.random() < 0.25}
-    if rng.random() < 0.12 and k in ("string", "int", "float", "list"):
+    if rng.random() < 0.12 and k in ("string", "int", "float", "list", "dict") and not hashable:
         f["custom"] = rng.choice({"string": ["upper", "short", "reject"], "int": ["nonneg", "reject", "typeerr"], "float": ["nonneg"],
-                                  "list": ["short"]}[k])
+                                  "list": ["short", "small"], "dict": ["small", "small", "reject"]}[k])
     if k in ("string", "ipv4addr", "ipv4net", "hostname", "url", "filename"):
         f.update(str_opts(rng, light=k != "string"))
     if k in ("int", "float", "port"):
